@@ -2,6 +2,14 @@
 From Verif Require Import Common.Base C19.Model C19.Proofs1 C19.Proofs2 C19.Proofs3 C19.Proofs4 C19.Proofs6 C19.Proofs7.
 Local Open Scope Z_scope.
 
+Lemma NoDup_snoc {A} (l : list A) x : NoDup l -> ~ In x l -> NoDup (l ++ [x]).
+Proof.
+  induction l as [|a l IH]; cbn; intros N H; [repeat constructor; auto|].
+  inversion N; subst. constructor.
+  - intros K. apply in_app_or in K. destruct K as [K|[K|[]]]; [contradiction|subst; apply H; now left].
+  - apply IH; auto.
+Qed.
+
 Section Inv.
   Variable o : eopts.
   Hypothesis Hsig : o_sig o <> Profiles.
@@ -41,7 +49,7 @@ Section Inv.
   Lemma pump_G f st : Inv6 st -> Inv6 (pump o f st).
   Proof.
     revert st. induction f as [|f IH]; intros st H; cbn [pump]; [exact H|].
-    pose proof (work_G o Hsig st H) as H1.
+    pose proof (work_G o st H) as H1.
     destruct (s_hung (work o st)); [exact H1|].
     destruct (s_queue (work o st)) eqn:E; [exact H1|]. apply IH, read_one_G, H1.
   Qed.
@@ -62,7 +70,7 @@ Section Inv.
     set (R := refs st (fdones (s_flushq st))) in *.
     assert (Hq : forall id, In id (map fst (s_queue st)) -> (id < s_next st)%nat) by (intros id Hi; now destruct (D id Hi) as (_ & _ & ?)).
     constructor; auto.
-    - rewrite map_app. cbn. apply NoDup_app_intro.
+    - rewrite map_app. cbn. apply NoDup_snoc; [exact C|]. intros K. specialize (Hq _ K). lia.
     - intros id Hi. rewrite map_app in Hi. apply in_app_or in Hi. destruct Hi as [Hi|[Hi|[]]].
       + destruct (D id Hi) as (P1 & P2 & P3). repeat split; auto.
       + subst id. cbn [fst]. repeat split; [apply (old_occ (s_next st)); [exact F|lia]| |lia].
@@ -73,3 +81,188 @@ Section Inv.
     - intros Hst. rewrite Hst. pose proof (Hs Hst). rewrite qsum_app. unfold qsum at 2. cbn. lia.
   Qed.
 End Inv.
+
+Section Inv2.
+  Variable o : eopts.
+  Hypothesis Hsig : o_sig o <> Profiles.
+
+  Notation Inv6 := (Inv6 o).
+
+  Lemma view_Inv6 st st' :
+    s_ref st' = s_ref st -> s_queue st' = s_queue st -> s_next st' = s_next st -> s_qsize st' = s_qsize st ->
+    s_stored st' = s_stored st -> s_kept st' = s_kept st -> s_cur st' = s_cur st -> s_hung st' = s_hung st ->
+    s_flushq st' = s_flushq st -> Inv6 st -> Inv6 st'.
+  Proof.
+    intros E1 E2 E3 E4 E5 E6 E7 E8 E9 H. unfold Proofs7.Inv6, Proofs6.GI, refs in *.
+    now rewrite E1, E2, E3, E4, E5, E6, E7, E8, E9.
+  Qed.
+
+  Lemma offer_G st n : Inv6 st -> Inv6 (offer o st n).
+  Proof.
+    intros H. unfold offer.
+    assert (H0 : Inv6 (add_offered st n)) by (eapply view_Inv6; [..|exact H]; reflexivity).
+    destruct (qc o) as [c|].
+    - destruct (q_storage c).
+      + destruct (over (q_cap c) _).
+        * eapply view_Inv6; [..|exact H0]; reflexivity.
+        * apply (accept_G o); auto.
+      + destruct (el_size o n =? 0); [exact H0|]. destruct (over (q_cap c) (el_size o n)).
+        * eapply view_Inv6; [..|exact H0]; reflexivity.
+        * destruct (over (q_cap c) _).
+          -- eapply view_Inv6; [..|exact H0]; reflexivity.
+          -- apply (accept_G o); auto.
+    - apply (work_G o). unfold Proofs7.Inv6, Proofs6.GI, push_flushes in *.
+      cbn [s_ref s_queue s_next s_qsize s_stored s_kept s_flushq set_flushq].
+      eapply GIR_equiv; [|exact H0]. intros g. rewrite !dsum_refs. cbn [s_cur s_hung set_flushq].
+      rewrite fdones_app, dsum_app. cbn [fdones flat_map snd app]. rewrite dsum_nil. lia.
+  Qed.
+
+  Lemma flush_cur_G st : Inv6 st -> Inv6 (flush_cur st).
+  Proof.
+    intros H. unfold flush_cur. destruct (s_cur st) as [b|] eqn:Ec; [|exact H].
+    unfold Proofs7.Inv6, Proofs6.GI, push_flushes in *. cbn [s_ref s_queue s_next s_qsize s_stored s_kept s_flushq set_flushq set_cur].
+    eapply GIR_equiv; [|exact H]. intros g. rewrite !dsum_refs. cbn [s_cur s_hung set_flushq set_cur]. rewrite Ec.
+    rewrite fdones_app, dsum_app. cbn [fdones flat_map odones app]. rewrite app_nil_r, dsum_nil. lia.
+  Qed.
+
+  Lemma fold_offer_G ns st :
+    Inv6 st -> Inv6 (fold_left (fun s n => let s' := offer o s n in pump_closed o (S (length (s_queue s'))) s') ns st).
+  Proof.
+    revert st. induction ns as [|n ns IH]; intros st H; cbn [fold_left]; [exact H|].
+    apply IH, (pump_closed_G o Hsig), offer_G, H.
+  Qed.
+
+  Lemma step_G st op : Inv6 st -> Inv6 (step o st op).
+  Proof.
+    intros H. destruct op as [n|ns|]; cbn [step].
+    - assert (H1 : Inv6 (run_quiet o (offer o st n))) by (apply (pump_G o Hsig), offer_G, H).
+      destruct (is_wfr o).
+      + eapply view_Inv6; [..|apply (pump_G o Hsig), flush_cur_G, H1]; reflexivity.
+      + eapply view_Inv6; [..|exact H1]; reflexivity.
+    - apply (pump_G o Hsig). eapply view_Inv6; [..|exact (fold_offer_G ns st H)]; reflexivity.
+    - eapply view_Inv6; [..|apply (pump_G o Hsig), flush_cur_G, H]; reflexivity.
+  Qed.
+
+  Lemma steps_G ops st : Inv6 st -> Inv6 (fold_left (step o) ops st).
+  Proof. revert st. induction ops as [|op ops IH]; intros st H; cbn [fold_left]; [exact H|]. apply IH, step_G, H. Qed.
+
+  Lemma init_G outs : Inv6 (init_est outs).
+  Proof.
+    unfold Proofs7.Inv6, Proofs6.GI, refs. cbn. constructor; cbn; try constructor; try tauto; try reflexivity.
+  Qed.
+
+  Lemma release_hung_G st : Inv6 st -> Inv6 (release_hung o st).
+  Proof.
+    intros H. unfold release_hung. destruct (s_hung st) as [[items ds]|] eqn:Eh; [|exact H].
+    match goal with |- Proofs7.Inv6 o (fire_all o RShutdown ds ?s) => set (s0 := s) end.
+    unfold Proofs7.Inv6. destruct (fire_all_frame o Hsig RShutdown ds s0) as (_ & _ & Fq & _). rewrite Fq.
+    apply (fire_all_G o). unfold Proofs6.GI in *. subst s0. cbn [s_ref s_queue s_next s_qsize s_stored s_kept s_flushq].
+    eapply GIR_equiv; [|exact H]. intros g. rewrite !dsum_refs. cbn [s_cur s_hung]. rewrite Eh. cbn [odones snd].
+    rewrite dsum_app, dsum_nil. lia.
+  Qed.
+
+  Lemma shutdown_G st : Inv6 st -> Inv6 (shutdown o st).
+  Proof.
+    intros H. unfold shutdown. apply (work_G o), flush_cur_G.
+    assert (H1 : Inv6 (work o (release_hung o (set_down st)))).
+    { apply (work_G o), release_hung_G. eapply view_Inv6; [..|exact H]; reflexivity. }
+    destruct (is_storage o); [exact H1|apply (pump_G o Hsig), H1].
+  Qed.
+
+  Lemma run_exporter_G outs ops : Inv6 (run_exporter o outs ops).
+  Proof. apply shutdown_G, steps_G, init_G. Qed.
+
+  (* no outstanding reference => no refCountDone cell, nothing live *)
+  Lemma no_refs_no_live st f :
+    Inv6 st -> s_flushq st = [] -> s_cur st = None -> s_hung st = None -> LS f (s_ref st) (refs st (fdones (s_flushq st))) = 0.
+  Proof.
+    intros H Fq Fc Fh. unfold Proofs7.Inv6, Proofs6.GI in H. unfold refs in *. rewrite Fq, Fc, Fh in *. cbn in *.
+    destruct H as [A B _ _ _ _ _ _]. destruct (s_ref st) as [|[id [d [n acc]]] c]; [reflexivity|].
+    destruct (B id d n acc (or_introl eq_refl)) as [Q1 Q2]. unfold occZ in Q1. rewrite dsum_nil in Q1. lia.
+  Qed.
+End Inv2.
+
+(* ---- (1) persistent queue, ANY batcher: stored = unread + kept after shutdown ------------------ *)
+Lemma exporter_stored_general_l o outs ops :
+  o_sig o <> Profiles -> valid_batch o -> is_storage o = true ->
+  let st := run_exporter o outs ops in
+  s_stored st = qsum (s_queue st) + s_kept st.
+Proof.
+  intros Hsig Hb Hst st.
+  pose proof (run_exporter_G o Hsig outs ops) as G. fold st in G.
+  destruct (shutdown_end o Hsig Hb (fold_left (step o) ops (init_est outs))) as (Q1 & Q2 & Q3 & Q4).
+  cbn zeta in *. fold (run_exporter o outs ops) in *. fold st in Q1, Q2, Q3, Q4.
+  pose proof (no_refs_no_live o st d_items G Q1 Q3 Q2) as L.
+  unfold Proofs7.Inv6, Proofs6.GI in G. destruct G as [_ _ _ _ _ _ _ Hs]. specialize (Hs Hst). lia.
+Qed.
+
+Lemma exporter_persistent_general_l o outs ops :
+  o_sig o <> Profiles -> valid_batch o -> Forall eop_nonneg ops -> is_storage o = true ->
+  let st := run_exporter o outs ops in
+  lget (ExpSent (o_sig o)) (s_led st) + lget (ExpFailed (o_sig o)) (s_led st) + lget (ExpEnqFailed (o_sig o)) (s_led st)
+  = s_offered st - s_stored st + s_kept st + s_wfr_failed st.
+Proof.
+  intros Hsig Hb F Hst st.
+  pose proof (exporter_excess_l o outs ops Hsig Hb F) as A. cbn zeta in A. fold st in A.
+  pose proof (exporter_stored_general_l o outs ops Hsig Hb Hst) as B. cbn zeta in B. fold st in B. lia.
+Qed.
+
+Lemma exporter_balance_persistent_general_l o outs ops :
+  o_sig o <> Profiles -> valid_batch o -> Forall eop_nonneg ops -> is_storage o = true ->
+  let st := run_exporter o outs ops in
+  s_wfr_failed st = 0 -> s_kept st = 0 -> balance o st.
+Proof.
+  intros Hsig Hb F Hst st Hw Hk.
+  pose proof (exporter_persistent_general_l o outs ops Hsig Hb F Hst) as A. cbn zeta in A. fold st in A.
+  unfold balance. lia.
+Qed.
+
+(* ---- (2) memory queue: the size field (= the gauge) is the size of unread + live requests -------- *)
+Definition outstanding_size (o : eopts) (st : est) : Z :=
+  qel o (s_queue st) + LS d_el (s_ref st) (refs st (fdones (s_flushq st))).
+
+Lemma mem_size_exact_l o outs ops :
+  o_sig o <> Profiles -> valid_batch o -> is_storage o = false ->
+  let st := fold_left (step o) ops (init_est outs) in
+  s_qsize st = outstanding_size o st /\ s_qsize (shutdown o st) = 0.
+Proof.
+  intros Hsig Hb Hst st. split.
+  - pose proof (steps_G o Hsig ops (init_est outs) (init_G o outs)) as G. fold st in G.
+    unfold Proofs7.Inv6, Proofs6.GI in G. destruct G as [_ _ _ _ _ _ Hm _]. exact (Hm Hst).
+  - pose proof (shutdown_G o Hsig st (steps_G o Hsig ops (init_est outs) (init_G o outs))) as G.
+    destruct (shutdown_end o Hsig Hb st) as (Q1 & Q2 & Q3 & Q4). cbn zeta in *.
+    pose proof (no_refs_no_live o (shutdown o st) d_el G Q1 Q3 Q2) as L.
+    unfold Proofs7.Inv6, Proofs6.GI in G. destruct G as [_ _ _ _ _ _ Hm _]. rewrite (Hm Hst), L, (Q4 Hst). reflexivity.
+Qed.
+
+(* the state at which a burst's gauge is read (after the gated Sends, before the drain) *)
+Lemma mem_size_exact_burst_l o outs ops ns :
+  o_sig o <> Profiles -> is_storage o = false ->
+  let st := fold_left (step o) ops (init_est outs) in
+  let st1 := fold_left (fun s n => let s' := offer o s n in pump_closed o (S (length (s_queue s'))) s') ns st in
+  s_qsize st1 = outstanding_size o st1.
+Proof.
+  intros Hsig Hst st st1.
+  pose proof (fold_offer_G o Hsig ns st (steps_G o Hsig ops (init_est outs) (init_G o outs))) as G. fold st1 in G.
+  unfold Proofs7.Inv6, Proofs6.GI in G. destruct G as [_ _ _ _ _ _ Hm _]. exact (Hm Hst).
+Qed.
+
+(* ---- persistent queue: the size field UNDER-counts after the read index catches up -------------- *)
+Definition opts_pq : eopts :=
+  {| o_sig := Logs; o_queue := true; o_storage := true; o_items_sizer := false; o_cap := 5; o_wfr := false;
+     o_qbatch := None; o_batcher := None; o_retry := false; o_tracing := false |}.
+
+(* three Sends while the pusher is gated: the consumer reads the first request, the read index
+   catches up with the write index and persistent_queue.go Read sets queueSize = 0 although that
+   request is still being exported; the next two Sends bring it to 2; three requests are outstanding *)
+Definition st_pq : est :=
+  fold_left (fun s n => let s' := offer opts_pq s n in pump_closed opts_pq (S (length (s_queue s'))) s') [1; 1; 1] (init_est []).
+
+Lemma persistent_size_undercounts_l :
+  exists o st, o_sig o <> Profiles /\ is_storage o = true /\ Inv6 o st /\
+    s_qsize st = 2 /\ outstanding_size o st = 3.
+Proof.
+  exists opts_pq, st_pq. split; [discriminate|]. split; [reflexivity|]. split.
+  - apply (fold_offer_G opts_pq ltac:(discriminate)), init_G.
+  - vm_compute. split; reflexivity.
+Qed.
